@@ -10,10 +10,32 @@ import vlib, ksi
 LEVEL = "model_checking"
 
 
+# the optional metadata fields (machine id, sequence number, request time in microseconds): every combination of encoded lengths decides anew
+# whether the padding element is one or two octets long (the whole record must have an even length)
+MD_FORMS = [dict(), dict(seq=5), dict(seq=70000), dict(rt=1500000000123456), dict(seq=1000, rt=1500000000123456), dict(ma=b"machine-7"), dict(ma=b"m8", seq=255, rt=7),
+            dict(seq=0), dict(seq=256)]
+
+
+def md_form(k):
+    return MD_FORMS[k % len(MD_FORMS)]
+
+
+def md_spec(cid, f):
+    """driver argument <client>[,<machine|->[,<seq|->[,<reqtime|->]]]"""
+    parts = [(cid + b"\0").hex(), (f["ma"] + b"\0").hex() if "ma" in f else "-", str(f["seq"]) if "seq" in f else "-", str(f["rt"]) if "rt" in f else "-"]
+    while len(parts) > 1 and parts[-1] == "-":
+        parts.pop()
+    return ",".join(parts)
+
+
+def md_payload(cid, f):
+    return ksi.metadata_payload(cid, machine=f.get("ma"), seq=f.get("seq"), reqtime=f.get("rt"), padding="auto")
+
+
 def leaf_bytes(o, i):
     if o["kind"] == "hash":
         return ksi.imprint(1, b"leaf%d" % i)
-    return ksi.metadata_payload(b"meta%d" % i, padding="auto")
+    return md_payload(b"meta%d" % i, md_form(i))
 
 
 def concretise(case):
@@ -35,7 +57,7 @@ def concretise(case):
         if o["kind"] == "hash":
             toks.append("h:%d:%s" % (o["lvl"], leaf_bytes(o, i).hex()))
         else:
-            toks.append("m:%d:%s" % (o["lvl"], (b"meta%d" % i + b"\0").hex()))
+            toks.append("m:%d:%s" % (o["lvl"], md_spec(b"meta%d" % i, md_form(i))))
     line = "TB 1 %d %s" % (case["maxLevel"], " ".join(toks))
     exp = dict(add=[o["ok"] for o in offered], close=(case["state"] == "closed"))
     if case["state"] == "closed":
@@ -225,10 +247,11 @@ def block_signer(chk, tier, seed):
             for o in ops[1:]:
                 if o["op"] == "add":
                     h = ksi.imprint(1, b"leaf-%d-%d" % (n, len(seg))); cid = (b"client-%d" % len(seg)) if o["md"] else None
-                    out = s.cmd("BSADD %s %d %s" % (h.hex(), o["lvl"], (cid + b"\0").hex() if cid else "-"))
+                    mdf = md_form(n + len(seg))
+                    out = s.cmd("BSADD %s %d %s" % (h.hex(), o["lvl"], md_spec(cid, mdf) if cid else "-"))
                     if "rc=0x0" not in out[-1]:
                         bad = "addLeaf refused: %s" % out[-1]; break
-                    seg.append((h, o["lvl"], cid))
+                    seg.append((h, o["lvl"], cid, mdf))
                 elif o["op"] == "reset":
                     out = s.cmd("BSRESET"); seg = []
                     if "rc=0x0" not in out[-1]:
@@ -248,7 +271,7 @@ def block_signer(chk, tier, seed):
                 if root_req is None or root_req[1] != c["root"]:
                     bad = "root level on the wire %s, BlockSigner.tla says %d" % (root_req and root_req[1], c["root"])
                 prev = prev0
-                for i, (h, lvl, cid) in enumerate(seg):
+                for i, (h, lvl, cid, mdf) in enumerate(seg):
                     if bad: break
                     out = s.cmd("BSSIG %d" % i); f = netsim.kv(out[-1])
                     if "sig" not in f:
@@ -269,8 +292,8 @@ def block_signer(chk, tier, seed):
                         if l is None or l.left or l.corr != (lvl if k == 0 else 0):
                             bad = "leaf %d link %d: expected the %s as left sibling with level correction %d" % (i + 1, k + 1, kind, lvl if k == 0 else 0); break
                         if kind == "meta":
-                            if l.kind != "meta" or (cid + b"\0") not in l.data:
-                                bad = "leaf %d: link %d should carry the caller's metadata (%s), it is %s" % (i + 1, k + 1, cid, l.kind); break
+                            if l.kind != "meta" or l.data != md_payload(cid, mdf):
+                                bad = "leaf %d: link %d should carry the caller's metadata (%s, %s) as %s, it is %s %s" % (i + 1, k + 1, cid, mdf, md_payload(cid, mdf).hex(), l.kind, l.data.hex() if l.kind == "meta" else ""); break
                         else:
                             mask = ksi.imprint(1, prev + iv)
                             if l.kind != "imprint" or l.data != mask:
